@@ -19,6 +19,81 @@ CHECKS = {
          "For each of 21 class drivers and every query q1, a fresh real object executes q1 and then every public query (q1 included); each result is compared with the same query on its own pristine object, differences are delta-debugged to the culprit pair, and every caller-supplied array (constructor and query arguments) is compared byte-wise with a copy taken before the call; every ordered pair of 8 climate-network classes is built over ONE shared ClimateData and compared with construction from pristine data.",
          "Fixtures of 6-10 nodes / 10-40 samples, one or two models per class; random queries run under reseeded generators; the thorough tier runs every ordered pair on its own fresh object.",
          "7/C06"),
+ "C02": ("exploration",
+         "bounded-exhaustive enumeration of all labelled graphs (<=5 undirected, <=4 directed) x weight vectors x every node x split proportions, iterated splits and all group pairs, on the real splitted_copy and nsi_* methods (metamorphic oracle)",
+         "For every labelled undirected graph on 1..4 nodes plus iso(5) and directed on 1..3 plus iso(4) (thorough: all of <=5 / <=4), 2 positive weight vectors, every node and proportions {0.3,0.5}, net.splitted_copy() (first verified against an independent construction) and net are compared on all 29 nsi_* methods of Network in every argument pattern (link attribute, typical weight, options) by the origin-map relation of the property; depth-2 splits on iso(5); all ordered pairs of disjoint groups for the 12 nsi_cross/internal methods of InteractingNetworks.",
+         "Small scope; spectral measures on connected undirected graphs only; betweenness variants undirected only; histogram outputs excluded; mismatches that a 1e-11 weight perturbation already produces are discarded as ill-conditioned and counted.",
+         "7/C02"),
+ "C04": ("exploration",
+         "exhaustive enumeration of isomorphism-class representatives x ALL n! relabellings (n<=5 undirected, <=4 directed) on the real measures of Network, Interacting, Spatial, Geo, Res, Recurrence and Visibility networks with a per-method equivariance table",
+         "Every isomorphism class on 2..5 nodes (directed 2..4) under all n! permutations (quick: all for n<=4, a 9-permutation sample incl. transpositions, reversal and cycles for n=5), with weights, link attributes, coordinates, resistances and node-list arguments relabelled accordingly (lists also re-sorted and rotated), is compared measure by measure (82 table entries; scalar equal, node/pair/operator outputs permuted, group outputs by list position); unclassified methods are held to multiset equality.",
+         "Small scope; eigenvector-type centralities only on connected undirected graphs (ARPACK degeneracy, 1e-6); float32 paths at float32 tolerance.",
+         "7/C04"),
+ "C09": ("model_checking",
+         "bounded-exhaustive similarity matrices (all 8192 3x3 over a 4-letter alphabet with ties, 4x4 symmetric) x grids x explicit-state histories of set_threshold/set_link_density/set_non_local (depth<=2 quick, <=3 thorough) on the real ClimateNetwork vs a Fraction reference model and a fresh twin",
+         "Every N=3 similarity matrix over {-0.8,0.3,0.3(tie),0.6} (symmetric and asymmetric, diagonal 1 or 0) and N=4 symmetric over 3 letters, on 3 grids, directed or not, local or non-local, is thresholded at every realised value, midpoint, -1, 2 and every density in {0,1/6,...,1}; all setter histories up to the depth bound (model states by BFS on the reference model) are executed with threshold(), link_density, n_links, adjacency checked for mutual consistency, the stated quantile and density bounds, monotonicity, symmetry and equality with a freshly constructed network; 13 data-derived subclasses on tiny data sets for the thresholding relation.",
+         "Thresholds within float32 tolerance of a similarity value are excluded and counted; distances as the grid reports them (C12).",
+         "7/C09"),
+ "C10": ("exploration",
+         "bounded-exhaustive enumeration of all data arrays (T,N) in {(3,2),(4,2),(5,2),(3,3)} over small alphabets x tau_max x lag modes x estimators on the real CouplingAnalysis (compiled and pure Python), climate similarity classes and surrogate test matrices vs reference statistics",
+         "All arrays of the listed shapes over {0,1,2} / {0,1} (constant, duplicated, anti-correlated columns and N>T included) with tau_max in {0,1,2}, both lag modes, gauss/binning estimators, plus 12 fixed data sets for kNN and Gaussian information transfer, are evaluated and compared with numpy.corrcoef on the library's window convention, scipy.stats.spearmanr, regression-residual partial correlation, explicit histogram sums, -1/2 log(1-rho^2) and brute-force kNN counts; symmetry, bounds, affine invariance, column-permutation equivariance, symmetrize_by_absmax and compiled-vs-pure-Python agreement on the common sub-domain are checked as relations.",
+         "Statistics that are undefined (0/0 on constant windows, |rho|=1, singular covariance) are decided in exact arithmetic, excluded and counted; float32 tolerance.",
+         "7/C10"),
+ "C13": ("model_checking",
+         "bounded-exhaustive observables x irregular grids x cycle lengths x all 125 menu windows, and explicit-state histories of set_window/set_global_window (depth<=2 quick, <=3 thorough) on the real Data/ClimateData vs a selection reference model",
+         "Every grid of 3-4 points from a 6-point alphabet, T in {5,6,7}, cycles {1,2,3,5}, anomalies flag on/off: all 125 windows (bounds on samples, between, outside, equal bounds) in sequence and every window history up to the depth bound, with observable(), grid sequences/sizes, window(), phase_mean(), anomaly(), phase_indices(), anomaly_selected_months() compared after every step with a closed-interval selection on the float32-stored coordinates and Fraction phase arithmetic; zero phase mean and add-back identities on the library output.",
+         "Windows that select nothing (the library raises) and the one-degenerate-spatial-axis convention are counted, not judged.",
+         "7/C13"),
+ "C16": ("exploration",
+         "exhaustive enumeration of all ordered pairs of binary sequences of length <=6 (<=8 thorough) x taumax x lag x timestamps, all 5x3 event matrices x symmetrisations, all (4,2) data arrays for thresholding, on the real EventSeries vs Fraction counting rules",
+         "Every ordered pair of 0/1 sequences up to the length bound with taumax in {1,2,inf}, lag in {0,1} and two timestamp sets is passed to event_synchronization and event_coincidence_analysis and compared with a Fraction transcription of the published counting rules; ranges, exchange symmetry, time-shift and (taumax=inf) time-scaling invariance; all 32768 5x3 event matrices (and 7x2) for the matrix analysis under all symmetrisation options; make_event_matrix on all (4,2) arrays over {0,1,2} for every method/type/quantile.",
+         "Pairs with undefined rates (too few events, zero denominator) excluded and counted.",
+         "7/C16"),
+ "C20": ("exploration",
+         "bounded-exhaustive enumeration of shapes x dtypes x memory orders x loop-bound parameters over 20 public entry points, each case in its own forked child of an ASan+UBSan-preloaded interpreter running a sanitised build of the four extensions",
+         "The four extension modules are rebuilt from /repo's working tree with -fsanitize=address,undefined -fno-sanitize-recover; ~3800 cases (each array dimension in {0,1,2,3,5,...}, N != T both ways, float64/float32/int64, C/Fortran/non-contiguous, parameters that reach loops indexing before testing a bound) run one per forked child; return or Python exception = pass, sanitiser report with a frame in pyunicorn's translation units or a fatal signal = violation; a deliberately wrong C helper built with the same flags must produce a report (negative control) or the check declares itself broken.",
+         "Shapes/dtypes listed, not all sizes; reports inside uninstrumented numpy/scipy/igraph are counted, not charged; endless retry loops of the randomisers are cut by a draw limit / CPU cap and counted as no verdict.",
+         "7/C20"),
+ "C03": ("exploration",
+         "bounded-exhaustive enumeration of all labelled graphs (<=5 undirected / <=4 directed nodes, link-weight assignments, structured larger graphs) on the real Network methods vs by-definition evaluators",
+         "Every labelled undirected graph on <=4 nodes plus iso(5) (thorough: all of <=5 plus iso(6)), every directed graph on <=3 plus iso(4) (thorough: all <=4), every {0.5,1,2} link-weight assignment on the small classes, and a fixed list of structured graphs up to 1293 nodes (hubs stressing integer widths) are run through ~70 Network measures and compared with loop/BFS/path-enumeration/linear-solve evaluators written from the docstring definitions; the evaluators are self-tested against networkx and the docstring examples on every run.",
+         "Small scope plus named families; conventions (normalisations) are taken from the docstring examples; measures are judged only on the graph class where their definition is unambiguous, everything else is counted as excluded. Trusted: numpy linear algebra for the random-walk/spectral oracles.",
+         "7/C03"),
+ "C05": ("exploration",
+         "bounded-exhaustive enumeration of graphs x node weights x link attributes x ~20 construction paths x 4 file formats on the real constructors, cross-compared with the input specification",
+         "Every labelled undirected graph on 2-4 nodes plus iso(5) and directed on 2-3 nodes (thorough: all 5-node graphs, iso(4) directed), with 3 weight vectors and 0-2 link attributes, is built through dense/ndarray/sparse/edge-list/set_edge_list/FromIGraph/copy/undirected_copy and save->Load in graphml, graphmlz, pickle and gml (also Spatial/Geo/ClimateNetwork), and N, n_links, link_density, adjacency, sp_A, embedded igraph edge set, node weights (total, mean) and link attributes are compared with the input and with each other; internal consumers (local_vulnerability, component-wise betweenness, rewiring) run on the same tiny graphs.",
+         "Small scope; one-node networks excluded where the density is 0/0. Trusted: igraph's file readers/writers.",
+         "7/C05"),
+ "C07": ("exploration",
+         "bounded-exhaustive enumeration of all series over a dyadic alphabet (length<=4/5, NaN masks, embeddings, 3 metrics, threshold/rate/local/adaptive menus, lags, unequal lengths) on the real plot classes vs an exact rational reference model",
+         "All 1-D series of length 1..4 (thorough 5) over {0,.5,1,2}, all 2-D series of length <=3 over {0,1}^2, all NaN patterns, 4 embeddings and 3 metrics are turned into RecurrencePlot/RecurrenceNetwork/Cross/Joint/InterSystem objects for every realised distance, every midpoint, 0 and a large threshold, threshold_std, global/local rates and adaptive sizes; R/CR/JR/ISRM, sizes, recurrence rates and adjacency are compared with an exact Fraction model, and every RQA method is called on each plot type (applicability).",
+         "Dyadic alphabet so that every comparison is exact; irrational thresholds excluded; sparse_rqa is C08's. Trusted: the Fraction reference model.",
+         "7/C07"),
+ "C11": ("exploration",
+         "bounded-exhaustive enumeration of graphs x weights x link attribute x ALL ordered pairs of disjoint node lists (sorted, reversed, rotated) on the real InteractingNetworks methods vs sub-block definitions",
+         "For all labelled graphs on 2-4 nodes plus iso(5) (directed <=3; thorough adds all bipartitions on iso(6)), 3 weight vectors and a link attribute, every ordered pair of disjoint non-empty node lists in three list orders is passed to all 32 pair methods and 16 single-list methods of InteractingNetworks (found by introspection) and compared with by-definition sub-block evaluators; _sparse == compiled, argument-swap symmetry, whole-node-set == Network measure and the CoupledClimateNetwork wrappers are checked as relations.",
+         "Small scope; pairs without any connecting path excluded where no convention is documented. Trusted: the plain-Python block evaluators (self-tested on 38 docstring examples).",
+         "7/C11"),
+ "C12": ("exploration",
+         "exhaustive enumeration of all ordered pairs and triples of a 44-point coordinate alphabet (poles, antimeridian, aliases, antipodes, near-coincident), all small grids and lookups, on the real Grid/GeoGrid kernels vs float64 closed forms with a derived error bound",
+         "Every ordered pair and triple of a 44-point alphabet (60 thorough) is built as a real GeoGrid and its angular distance matrix compared with atan2(|a x b|, a.b) of the float32-stored coordinates under the analytic error bound of DESIGN 7/C12, plus exact symmetry, range and triangle inequality; Euclidean grids in dimension 1..4, nearest-node lookups against exact minima, rectangular grids against itertools.product, region_indices against an exact even-odd rule, node weights and area-weighted measures against cos(latitude).",
+         "Alphabet-based, not all reals; error bound derived for float32 cosines. Trusted: Python math in float64.",
+         "7/C12"),
+ "C14": ("exploration",
+         "bounded-exhaustive enumeration of all series of length 2..5 (6,7 thorough) over {0,1,2,3}, timings, NaN masks, both graph types on the real kernels vs a Fraction visibility criterion and metamorphic relations",
+         "Every series over {0,1,2,3} of length 2..5 (thorough 6, and 7 over 3 letters), three timing vectors, every NaN mask and both graph types is turned into a VisibilityGraph and its adjacency compared with the exact rational line criterion; affine invariance, time reversal (retarded <-> advanced) and retarded+advanced=degree are checked, and the time-directed measures against their definitions on the library's adjacency.",
+         "Integer alphabet (exact in float32). Trusted: Fraction arithmetic.",
+         "7/C14"),
+ "C18": ("model_checking",
+         "bounded-exhaustive inputs (all connected graphs <=5 nodes x all {1/2,1,2} resistance assignments) x explicit-state histories of update_resistances interleaved with queries, on the real ResNetwork vs exact rational circuit solver and a fresh twin",
+         "All connected iso classes on 2..5 nodes under all relabellings (n<=4) and every resistance assignment over {1/2,1,2} for <=6 links, ladder/series/parallel families up to 8 nodes and complex impedances are solved exactly (Fraction Gauss-Jordan on the grounded Laplacian) and compared with ResNetwork; metric axioms, path bound, Foster, scaling, series/parallel laws are asserted on the library values; every sequence of <=2 update_resistances with every block of <=2 average/diameter queries in every gap is compared with a freshly constructed twin.",
+         "Resistances from a 3-letter alphabet; betweenness on <=5 nodes. Trusted: the exact solver (self-checked by circuit laws).",
+         "7/C18"),
+ "C19": ("model_checking",
+         "stateless schedule exploration (choice-sequence DFS, preemption bound 1 quick / 2 thorough) of the real master loops over an in-process MPI world running the unmodified utils/mpi.py per rank, x worker counts x verbosity levels; exhaustive contiguous chunkings for the chunk kernels; all batch orders for the pool",
+         "The real Network.newman_betweenness / nsi_newman_betweenness / nsi_arenas_betweenness master loops run as rank 0 of an in-process MPI world whose slaves execute the unmodified utils/mpi.py serve() loop in threads under a cooperative scheduler; every send/recv is a scheduling point, all schedules within the preemption bound are executed for 2-4 ranks (default schedule up to 13 ranks), silence levels 0..3, 3-6 graphs with several components; results must equal the serial call, no deadlock; all 2^(N-1) contiguous chunkings of the three chunk kernels on all connected graphs <=5 nodes; nsi_betweenness(parallelize=True) with every cpu_count and batch order over pickled arguments.",
+         "MPI modelled with eager sends, blocking receives, per-pair FIFO; rendezvous sends and real multi-process memory are not modelled. Payloads are pickled.",
+         "7/C19"),
  "C08": ("exploration",
          "bounded-exhaustive enumeration of all binary matrices <=5x5 on the real kernels vs run-length reference model",
          "Every symmetric 0/1 matrix with unit diagonal up to 5x5 (realised by crafted series), every 0/1 matrix up to 3x3 (4x4 thorough) assigned as R, both storage modes, every missing-value mask and every minimal line length are run through the real RecurrencePlot kernels and compared with a direct run-length count; derived measures are recomputed from the histograms.",
